@@ -48,6 +48,7 @@ static off_t g_sinkfile_off[MAXSINKFILES];
 static int g_nsinkfiles;
 static int g_sample_sinks = 1;
 static int g_sample_state = 1;
+static long g_case_timeout_ms = 20000;
 
 /* ---------------------------------------------------------------- event buffer */
 static char *eb;
@@ -503,6 +504,137 @@ static void do_call(char **tok, int ntok) {
     free(path);
 }
 
+#ifdef VITRO
+/* ---------------------------------------------------------------- in-vitro arm: call internals of the static archive */
+extern int snoopy_datasourceregistry_callByName(const char *, char *, size_t, const char *);
+extern int snoopy_datasourceregistry_doesNameExist(const char *);
+extern int snoopy_filterregistry_callByName(const char *, const char *);
+extern int snoopy_filterregistry_doesNameExist(const char *);
+extern int snoopy_outputregistry_callByName(const char *, const char *, const char *);
+extern void snoopy_message_generateFromFormat(char *, size_t, size_t, const char *);
+extern int snoopy_util_string_append(char *, size_t, const char *);
+extern int snoopy_util_parser_strByteLength(const char *, int, int, int);
+extern int snoopy_util_parser_csvToArgList(char *, char ***);
+extern int snoopy_util_syslog_convertFacilityToInt(const char *);
+extern int snoopy_util_syslog_convertLevelToInt(const char *);
+extern int snoopy_filtering_check_chain(const char *);
+extern void snoopy_init(void);
+extern void snoopy_cleanup(void);
+extern void snoopy_inputdatastorage_store_filename(const char *);
+extern void snoopy_inputdatastorage_store_argv(char *const *);
+extern void snoopy_inputdatastorage_store_envp(char *const *);
+
+static void vitro_result(long id, const char *op, int ret, const char *buf, size_t size) {
+    size_t n = buf ? strnlen(buf, size) : 0;
+    eb_printf("{\"ev\":\"V\",\"id\":%ld,\"op\":\"%s\",\"ret\":%d,\"len\":%zu,\"size\":%zu,\"nul_ok\":%d,\"out\":\"", id, op, ret, n, size, buf ? n < size : 1);
+    if (buf) eb_hex(buf, n > 8192 ? 8192 : n);
+    eb_printf("\"}\n");
+    eb_flush();
+}
+
+static int do_vitro(char **tok, int nt) {
+    const char *c = tok[0];
+    long id = nt > 1 ? atol(tok[1]) : 0;
+    if (!strcmp(c, "vinit")) {
+        snoopy_init();
+        if (nt >= 5) {
+            snoopy_inputdatastorage_store_filename(decode_bytes(tok[2], NULL));
+            snoopy_inputdatastorage_store_argv(decode_vec(tok[3]));
+            snoopy_inputdatastorage_store_envp(decode_vec(tok[4]));
+        }
+        return 1;
+    }
+    if (!strcmp(c, "vcleanup")) {
+        snoopy_cleanup();
+        return 1;
+    }
+    if (!strcmp(c, "vds")) { /* vds id name arg size */
+        char *name = decode_bytes(tok[2], NULL), *arg = decode_bytes(tok[3], NULL);
+        size_t size = strtoul(tok[4], NULL, 10);
+        char *buf = malloc(size);
+        memset(buf, 0xAA, size);
+        buf[0] = 0;
+        int r = snoopy_datasourceregistry_callByName(name, buf, size, arg);
+        vitro_result(id, "ds", r, buf, size);
+        free(buf); free(name); free(arg);
+        return 1;
+    }
+    if (!strcmp(c, "vfilter")) {
+        char *name = decode_bytes(tok[2], NULL), *arg = decode_bytes(tok[3], NULL);
+        int r = snoopy_filterregistry_callByName(name, arg);
+        vitro_result(id, "filter", r, NULL, 0);
+        free(name); free(arg);
+        return 1;
+    }
+    if (!strcmp(c, "voutput")) {
+        char *name = decode_bytes(tok[2], NULL), *msg = decode_bytes(tok[3], NULL), *arg = decode_bytes(tok[4], NULL);
+        int r = snoopy_outputregistry_callByName(name, msg, arg);
+        vitro_result(id, "output", r, NULL, 0);
+        free(name); free(msg); free(arg);
+        return 1;
+    }
+    if (!strcmp(c, "vfmt")) { /* vfmt id bufsize dsmax fmt */
+        size_t size = strtoul(tok[2], NULL, 10), dsmax = strtoul(tok[3], NULL, 10);
+        char *fmt = decode_bytes(tok[4], NULL);
+        char *buf = malloc(size);
+        memset(buf, 0xAA, size);
+        buf[0] = 0;
+        snoopy_message_generateFromFormat(buf, size, dsmax, fmt);
+        vitro_result(id, "fmt", 0, buf, size);
+        free(buf); free(fmt);
+        return 1;
+    }
+    if (!strcmp(c, "vappend")) { /* vappend id bufsize initial append */
+        size_t size = strtoul(tok[2], NULL, 10), il;
+        char *ini = decode_bytes(tok[3], &il), *app = decode_bytes(tok[4], NULL);
+        char *buf = malloc(size);
+        memset(buf, 0xAA, size);
+        memcpy(buf, ini, il + 1 <= size ? il + 1 : size);
+        buf[size - 1 < il ? size - 1 : il] = 0;
+        int r = snoopy_util_string_append(buf, size, app);
+        vitro_result(id, "append", r, buf, size);
+        free(buf); free(ini); free(app);
+        return 1;
+    }
+    if (!strcmp(c, "vbytelen")) {
+        char *t = decode_bytes(tok[2], NULL);
+        int r = snoopy_util_parser_strByteLength(t, atoi(tok[3]), atoi(tok[4]), atoi(tok[5]));
+        vitro_result(id, "bytelen", r, NULL, 0);
+        free(t);
+        return 1;
+    }
+    if (!strcmp(c, "vsysfac") || !strcmp(c, "vsyslvl")) {
+        size_t n;
+        char *t0 = decode_bytes(tok[2], &n);
+        char *t = malloc(n + 1); /* exact size */
+        memcpy(t, t0, n + 1);
+        int r = !strcmp(c, "vsysfac") ? snoopy_util_syslog_convertFacilityToInt(t) : snoopy_util_syslog_convertLevelToInt(t);
+        vitro_result(id, c + 1, r, NULL, 0);
+        free(t); free(t0);
+        return 1;
+    }
+    if (!strcmp(c, "vcsv")) {
+        char *t = decode_bytes(tok[2], NULL);
+        char **lst = NULL;
+        int r = snoopy_util_parser_csvToArgList(t, &lst);
+        uint64_t h = FNV0;
+        for (int i = 0; i < r; i++) h = hash_str(h, lst[i]);
+        eb_printf("{\"ev\":\"V\",\"id\":%ld,\"op\":\"csv\",\"ret\":%d,\"h\":\"%016llx\"}\n", id, r, (unsigned long long) h);
+        eb_flush();
+        free(lst); free(t);
+        return 1;
+    }
+    if (!strcmp(c, "vchain")) {
+        char *t = decode_bytes(tok[2], NULL);
+        int r = snoopy_filtering_check_chain(t);
+        vitro_result(id, "chain", r, NULL, 0);
+        free(t);
+        return 1;
+    }
+    return 0;
+}
+#endif
+
 static void run_script(void);
 static char **g_lines;
 static size_t g_nlines, g_pc;
@@ -529,6 +661,9 @@ static void exec_line(char *line) {
     for (char *t = strtok_r(line, " ", &save); t && nt < 16; t = strtok_r(NULL, " ", &save)) tok[nt++] = t;
     if (nt == 0 || tok[0][0] == '#') return;
     const char *c = tok[0];
+#ifdef VITRO
+    if (c[0] == 'v' && do_vitro(tok, nt)) return;
+#endif
     if (!strcmp(c, "conf")) write_conf(nt > 1 ? tok[1] : "-");
     else if (!strcmp(c, "confrm")) {
         unlink(g_conf_path);
@@ -547,7 +682,8 @@ static void exec_line(char *line) {
     } else if (!strcmp(c, "sinkreset")) {
         for (int i = 0; i < g_nsinkfiles; i++) free(g_sinkfile[i]);
         g_nsinkfiles = 0;
-    } else if (!strcmp(c, "nosinks")) g_sample_sinks = 0;
+    } else if (!strcmp(c, "casetimeout")) g_case_timeout_ms = atol(tok[1]);
+    else if (!strcmp(c, "nosinks")) g_sample_sinks = 0;
     else if (!strcmp(c, "nostate")) g_sample_state = 0;
     else if (!strcmp(c, "stdin")) {
         const char *m = tok[1];
@@ -633,13 +769,38 @@ static void exec_line(char *line) {
             _exit(0);
         }
         int st = 0;
-        while (waitpid(p, &st, 0) < 0 && errno == EINTR) {}
+        int timed_out = 0;
+        char hang[512] = "";
+        /* generous per-case watchdog: a firing is reported, never judged here */
+        for (long waited_ms = 0;;) {
+            pid_t w = waitpid(p, &st, WNOHANG);
+            if (w == p) break;
+            if (w < 0 && errno != EINTR) break;
+            struct timespec ts = {0, 2000000};
+            nanosleep(&ts, NULL);
+            waited_ms += 2;
+            if (waited_ms > g_case_timeout_ms) {
+                char pth[64];
+                snprintf(pth, sizeof pth, "/proc/%d/syscall", p);
+                int fd = open(pth, O_RDONLY);
+                if (fd >= 0) {
+                    ssize_t r = read(fd, hang, sizeof hang - 1);
+                    if (r > 0) hang[r] = 0;
+                    close(fd);
+                    for (char *q = hang; *q; q++) if (*q == '\n' || *q == '"' || *q == '\\') *q = ' ';
+                }
+                timed_out = 1;
+                kill(p, SIGKILL);
+                while (waitpid(p, &st, 0) < 0 && errno == EINTR) {}
+                break;
+            }
+        }
         /* skip the block in the parent */
         while (g_pc < g_nlines) {
             if (!strcmp(g_lines[g_pc++], "endfork")) break;
         }
-        eb_printf("{\"ev\":\"CHILD\",\"tag\":%ld,\"pid\":%d,\"exited\":%d,\"status\":%d,\"signal\":%d,", pos_tag, p, WIFEXITED(st),
-                  WIFEXITED(st) ? WEXITSTATUS(st) : -1, WIFSIGNALED(st) ? WTERMSIG(st) : 0);
+        eb_printf("{\"ev\":\"CHILD\",\"tag\":%ld,\"pid\":%d,\"exited\":%d,\"status\":%d,\"signal\":%d,\"timeout\":%d,\"hang_syscall\":\"%s\",", pos_tag, p, WIFEXITED(st),
+                  WIFEXITED(st) ? WEXITSTATUS(st) : -1, (WIFSIGNALED(st) && !timed_out) ? WTERMSIG(st) : 0, timed_out, hang);
         sample_sinks();
         eb_printf("\"done\":1}\n");
         eb_flush();
